@@ -62,3 +62,36 @@ Proof. vm_compute. repeat split; reflexivity. Qed.
 Print Assumptions c14_in_span_sound. Print Assumptions c14_in_span_with_sound. Print Assumptions c14_not_in_span_cert_sound. Print Assumptions c14_naive_min_weight. Print Assumptions c14_naive_corrects.
 Print Assumptions c14_weight_subadditive. Print Assumptions c14_distance_by_search.
 Print Assumptions c14_five_qubit. Print Assumptions c14_steane.
+
+(* ---- re-exported by tools/reexport.py: statements copied from `Check`, closed by `exact` ---- *)
+From QV Require Import Decoders.MwpmGraph.
+Theorem c14_graph_virtual_edges : forall rows cols : Z, 2 <= rows -> 2 <= cols -> forall (ds : list (Z * Z)) (extra : Z * Z) (pr : bool), (forall q : Z * Z, In q ds -> In q (Planar.plaquette_indices rows cols) /\ LatticeArith.planar_is_primal q = pr) -> LatticeArith.planar_is_in_bounds rows cols extra = false -> forall (a b : Z * Z) (w : option Z), In (a, b, w) (planar_graph rows cols ds extra) -> (LatticeArith.planar_is_in_bounds rows cols a = true -> LatticeArith.planar_is_in_bounds rows cols b = false -> b = PlanarMwpm.vnode rows cols a) /\ (LatticeArith.planar_is_in_bounds rows cols a = false -> LatticeArith.planar_is_in_bounds rows cols b = false /\ w = Some 0).
+Proof. exact graph_virtual_edges. Qed.
+Theorem c14_graph_extra_not_with_defect : forall rows cols : Z, 2 <= rows -> 2 <= cols -> forall (ds : list (Z * Z)) (extra : Z * Z) (pr : bool) (m : list (Z * Z * (Z * Z))), (forall q : Z * Z, In q ds -> In q (Planar.plaquette_indices rows cols) /\ LatticeArith.planar_is_primal q = pr) -> LatticeArith.planar_is_in_bounds rows cols extra = false -> ~ PlanarAll.instrip rows cols extra -> uses (planar_graph rows cols ds extra) m -> PlanarMwpm.extra_not_with_defect rows cols extra m.
+Proof. exact graph_extra_not_with_defect. Qed.
+Theorem c14_distance_taxicab : forall (rows cols : Z) (a b : Z * Z), PlanarAll.ptype a -> PlanarAll.ptype b -> PlanarAll.same_type a b -> LatticeArith.planar_is_in_bounds rows cols a = true \/ LatticeArith.planar_is_in_bounds rows cols b = true -> Planar.distance rows cols a b = Some (Z.abs (fst b - fst a) / 2 + Z.abs (snd b - snd a) / 2).
+Proof. exact distance_taxicab. Qed.
+Theorem c14_graph_complete : forall rows cols : Z, 2 <= rows -> 2 <= cols -> forall (ds : list (Z * Z)) (extra : Z * Z) (pr : bool), (forall q : Z * Z, In q ds -> In q (Planar.plaquette_indices rows cols) /\ LatticeArith.planar_is_primal q = pr) -> forall a b : Z * Z, In a ds -> In b ds -> a <> b -> let w := Some (Z.abs (fst b - fst a) / 2 + Z.abs (snd b - snd a) / 2) in In (a, b, w) (planar_graph rows cols ds extra) \/ In (b, a, w) (planar_graph rows cols ds extra).
+Proof. exact graph_complete. Qed.
+Theorem c14_graph_boundary_edges : forall rows cols : Z, 2 <= rows -> 2 <= cols -> forall (ds : list (Z * Z)) (extra : Z * Z) (pr : bool), (forall q : Z * Z, In q ds -> In q (Planar.plaquette_indices rows cols) /\ LatticeArith.planar_is_primal q = pr) -> forall d : Z * Z, In d ds -> In (d, PlanarMwpm.vnode rows cols d, Some (Z.abs (fst (PlanarMwpm.vnode rows cols d) - fst d) / 2 + Z.abs (snd (PlanarMwpm.vnode rows cols d) - snd d) / 2)) (planar_graph rows cols ds extra).
+Proof. exact graph_boundary_edges. Qed.
+Theorem c14_graph_nodes : forall (rows cols : Z) (ds : list (Z * Z)) (extra x : Z * Z), ds <> [] -> In x (PlanarMwpm.lattice_nodes rows cols ds extra) <-> (exists (y : Z * Z) (w : option Z), In (x, y, w) (planar_graph rows cols ds extra) \/ In (y, x, w) (planar_graph rows cols ds extra)).
+Proof. exact graph_nodes. Qed.
+Theorem c14_planar_mwpm_syndrome_graph : forall rows cols : Z, 2 <= rows -> 2 <= cols -> forall (syn : bsf) (mp md : list (Z * Z * (Z * Z))), length syn = length (Planar.plaquette_indices rows cols) -> Permutation.Permutation (MwpmRel.ends2 mp) (PlanarMwpm.primal_nodes rows cols syn) -> Permutation.Permutation (MwpmRel.ends2 md) (PlanarMwpm.dual_nodes rows cols syn) -> uses (primal_graph rows cols syn) mp -> uses (dual_graph rows cols syn) md -> exists r : bsf, PlanarMwpm.mwpm_recovery rows cols (mp ++ md) = Some r /\ length r = (Planar.planar_n rows cols + Planar.planar_n rows cols)%nat /\ syndrome_of (Code.stabs (Planar.planar_code rows cols)) r = syn.
+Proof. exact planar_mwpm_syndrome_graph. Qed.
+Theorem c14_tdistance_periodic : forall rows cols : Z, 2 <= rows -> 2 <= cols -> forall a b : Z * Z * Z, ToricAll.inrange rows cols a -> ToricAll.inrange rows cols b -> fst (fst a) = fst (fst b) -> Toric.tdistance rows cols a b = Some (ptaxi rows cols a b).
+Proof. exact tdistance_periodic. Qed.
+Theorem c14_toric_graph_complete : forall rows cols : Z, 2 <= rows -> 2 <= cols -> forall (la : Z) (syn : bsf) (a b : Z * Z * Z), In a (ToricMwpm.lattice_defects rows cols la syn) -> In b (ToricMwpm.lattice_defects rows cols la syn) -> a <> b -> In (a, b, Some (ptaxi rows cols a b)) (toric_graph rows cols la syn) \/ In (b, a, Some (ptaxi rows cols a b)) (toric_graph rows cols la syn).
+Proof. exact toric_graph_complete. Qed.
+Theorem c14_toric_graph_sound : forall rows cols : Z, 2 <= rows -> 2 <= cols -> forall (la : Z) (syn : bsf) (a b : Z * Z * Z) (w : option Z), In (a, b, w) (toric_graph rows cols la syn) -> In a (ToricMwpm.lattice_defects rows cols la syn) /\ In b (ToricMwpm.lattice_defects rows cols la syn) /\ w = Some (ptaxi rows cols a b).
+Proof. exact toric_graph_sound. Qed.
+Print Assumptions c14_graph_virtual_edges.
+Print Assumptions c14_graph_extra_not_with_defect.
+Print Assumptions c14_distance_taxicab.
+Print Assumptions c14_graph_complete.
+Print Assumptions c14_graph_boundary_edges.
+Print Assumptions c14_graph_nodes.
+Print Assumptions c14_planar_mwpm_syndrome_graph.
+Print Assumptions c14_tdistance_periodic.
+Print Assumptions c14_toric_graph_complete.
+Print Assumptions c14_toric_graph_sound.
